@@ -107,6 +107,10 @@ pub fn scenarios(prop: &str, tier: &str) -> Vec<Arc<dyn Scenario>> {
             if prop == "C07" && !quick {
                 a.leveled = vec![0, 1];
             }
+            if prop == "C18" {
+                // a second writer that allocated its seqno later but inserts first
+                a.extra = vec![Op::PutSwapped { k1: 0, k2: 1 }, Op::PutSwapped { k1: 1, k2: 1 }];
+            }
             if prop == "C18" || prop == "C20" {
                 a.clear = true;
                 a.drop_ranges = vec![
